@@ -2,7 +2,9 @@
    (biom/__init__.py:75-95), modelled on the content of tables.
    The code is generic in the axis through stack/invstack; the model orients every
    operand so that the concatenation axis is the row axis, runs the row version and
-   orients the result back. *)
+   orients the result back.
+   Line numbers cite biom/table.py of the pinned tree (32a1913a, as in properties.jsonl); later
+   repairs shift them by a few dozen lines, the statement order inside each method is unchanged. *)
 From Coq Require Import List Arith ZArith Lia Bool.
 From BiomV Require Import Base.Tree Base.ListUtil Base.Matrix Model.Table Model.Orient.
 Import ListNotations.
